@@ -483,8 +483,13 @@ func (m *ModuleInstance) resolveImports(ctx context.Context, module *Module) (er
 					return
 				}
 
-				if expected.Min > importedTable.Min {
-					err = errorMinSizeMismatch(i, expected.Min, importedTable.Min)
+				// The minimum is matched against the current size: the table may have grown.
+				current := importedTable.Min
+				if n := uint32(len(importedTable.References)); n > current {
+					current = n
+				}
+				if expected.Min > current {
+					err = errorMinSizeMismatch(i, expected.Min, current)
 					return
 				}
 
